@@ -33,6 +33,8 @@ pub fn programs(quick: bool, tags: bool) -> Vec<Program> {
             T::Cmp(Tag::Named, vec![y.clone(), x.clone()]),
             T::Cmp(Tag::Pair, vec![T::Cmp(Tag::Box1, vec![x.clone()]), T::cons(T::I(2), y.clone())]),
             T::Cmp(Tag::Rec, vec![x.clone(), T::Cmp(Tag::Rec, vec![y.clone(), T::Nil])]),
+            T::Cmp(Tag::Holder, vec![T::Cmp(Tag::OptSome, vec![x.clone()]), y.clone()]),
+            T::Cmp(Tag::Holder, vec![T::Cmp(Tag::OptNone, vec![]), x.clone()]),
         ]);
     }
     let shapes1: Vec<Option<T>> = vec![None, Some(y.clone()), Some(T::list(vec![y.clone(), x.clone()])), Some(T::I(5)), Some(T::Cmp(Tag::Box1, vec![y.clone()]))];
@@ -51,6 +53,16 @@ pub fn programs(quick: bool, tags: bool) -> Vec<Program> {
         vec![G::Neq(x.clone(), h.clone()), G::Eq(h.clone(), T::I(9))],
         vec![G::Neq(q0.clone(), T::I(3))],
     ];
+    let mut cons = cons;
+    if tags {
+        // Some(_) and None in an Option field are different structures of one Rust type
+        let some = |t: &T| T::Cmp(Tag::OptSome, vec![t.clone()]);
+        let none = T::Cmp(Tag::OptNone, vec![]);
+        cons.push(vec![G::Neq(T::Cmp(Tag::Holder, vec![some(&x), y.clone()]), T::Cmp(Tag::Holder, vec![none.clone(), T::I(2)]))]);
+        cons.push(vec![G::Eq(T::Cmp(Tag::Holder, vec![some(&T::I(1)), y.clone()]), T::Cmp(Tag::Holder, vec![none.clone(), T::I(2)]))]);
+        cons.push(vec![G::Eq(T::Cmp(Tag::Holder, vec![some(&x), y.clone()]), T::Cmp(Tag::Holder, vec![some(&T::I(1)), h.clone()])), G::Neq(h.clone(), T::I(2))]);
+        cons.push(vec![G::Neq(T::Cmp(Tag::Holder, vec![some(&x), y.clone()]), T::Cmp(Tag::Holder, vec![some(&T::I(1)), T::I(2)]))]);
+    }
     let mut out = vec![];
     for s0 in &shapes0 {
         for s1 in &shapes1 {
